@@ -182,22 +182,22 @@ package dns
 // is a target for later pointers, which is what the length walk of Len and Truncate counts on).  (The generated
 // pack/unpack methods are matched structurally: offsets threaded, buffer and map passed on.)
 //@ func (*Question).pack [C04]
-//@   callsite "packDomainName" whole: ref(arg1) == ref(msg) && sliceoff(arg1) == sliceoff(msg) && len(arg1) == len(msg) && arg2 == off
+//@   callsite "packDomainName" whole: ref(arg1) == old(ref(msg)) && sliceoff(arg1) == old(sliceoff(msg)) && len(arg1) == old(len(msg)) && arg2 == off
 //@   callsite "packDomainName" samemap: arg3.int == old(compression.int) && arg3.ext == old(compression.ext)
 //@ func (RR_Header).packHeader [C04]
-//@   callsite "packDomainName" whole: ref(arg1) == ref(msg) && sliceoff(arg1) == sliceoff(msg) && len(arg1) == len(msg) && arg2 == off
+//@   callsite "packDomainName" whole: ref(arg1) == old(ref(msg)) && sliceoff(arg1) == old(sliceoff(msg)) && len(arg1) == old(len(msg)) && arg2 == off
 //@   callsite "packDomainName" samemap: arg3.int == old(compression.int) && arg3.ext == old(compression.ext)
 //@ func packDataDomainNames [C04 C09]
-//@   callsite "packDomainName" whole: ref(arg1) == ref(msg) && sliceoff(arg1) == sliceoff(msg) && len(arg1) == len(msg) && arg2 == off
+//@   callsite "packDomainName" whole: ref(arg1) == old(ref(msg)) && sliceoff(arg1) == old(sliceoff(msg)) && len(arg1) == old(len(msg)) && arg2 == off
 //@   callsite "packDomainName" samemap: arg3.int == old(compression.int) && arg3.ext == old(compression.ext)
 //@ func packIPSECGateway [C04 C09]
-//@   callsite "packDomainName" whole: ref(arg1) == ref(msg) && sliceoff(arg1) == sliceoff(msg) && len(arg1) == len(msg) && arg2 == off
+//@   callsite "packDomainName" whole: ref(arg1) == old(ref(msg)) && sliceoff(arg1) == old(sliceoff(msg)) && len(arg1) == old(len(msg)) && arg2 == off
 //@   callsite "packDomainName" samemap: arg3.int == old(compression.int) && arg3.ext == old(compression.ext)
 //@ func unpackQuestion [C04]
-//@   callsite "UnpackDomainName" whole: ref(arg0) == ref(msg) && sliceoff(arg0) == sliceoff(msg) && arg1 == off
+//@   callsite "UnpackDomainName" whole: ref(arg0) == old(ref(msg)) && sliceoff(arg0) == old(sliceoff(msg)) && arg1 == off
 //@ func unpackHeader [C04]
-//@   callsite "UnpackDomainName" whole: ref(arg0) == ref(msg) && sliceoff(arg0) == sliceoff(msg) && arg1 == off
+//@   callsite "UnpackDomainName" whole: ref(arg0) == old(ref(msg)) && sliceoff(arg0) == old(sliceoff(msg)) && arg1 == off
 //@ func unpackDataDomainNames [C04]
-//@   callsite "UnpackDomainName" whole: ref(arg0) == ref(msg) && sliceoff(arg0) == sliceoff(msg) && arg1 == off
+//@   callsite "UnpackDomainName" whole: ref(arg0) == old(ref(msg)) && sliceoff(arg0) == old(sliceoff(msg)) && arg1 == off
 //@ func unpackIPSECGateway [C04]
-//@   callsite "UnpackDomainName" whole: ref(arg0) == ref(msg) && sliceoff(arg0) == sliceoff(msg) && arg1 == off
+//@   callsite "UnpackDomainName" whole: ref(arg0) == old(ref(msg)) && sliceoff(arg0) == old(sliceoff(msg)) && arg1 == off
